@@ -32,6 +32,22 @@ type crashHistory struct {
 	// Fault: one file-system step of the crashing store fails with an error (and the process dies later, on whatever
 	// path the store takes after the error)
 	Fault *faultSpec
+	// Thin: the document is large (MiB); of the byte prefixes of a write only 0..256, the neighbours of every power of
+	// two and the last three are enumerated (a decodable torn prefix ends at a field boundary of the encoding, and the
+	// first boundary after the metadata lies within the first few hundred bytes); no recovery / fault sub-groups
+	Thin bool
+}
+
+func prefixTested(p, n int) bool {
+	if p <= 256 || p >= n-2 {
+		return true
+	}
+	for q := 512; q <= n+1; q *= 2 {
+		if p >= q-1 && p <= q+1 {
+			return true
+		}
+	}
+	return false
 }
 
 type faultSpec struct {
@@ -103,6 +119,10 @@ func crashHistories(thorough bool) []crashHistory {
 		{Name: "overwrite-of-symlinked-entry", Pre: []op{{Kind: "store", Doc: "d1", ID: "a"}}, Last: op{Kind: "store", Doc: "d3", ID: "a"}, Shape: "symlink"},
 		{Name: "overwrite-of-hard-linked-entry", Pre: []op{{Kind: "store", Doc: "d1", ID: "a"}}, Last: op{Kind: "store", Doc: "d3", ID: "a"}, Shape: "hardlink"},
 		{Name: "first-store-over-dangling-symlink", Last: op{Kind: "store", Doc: "d1", ID: "a"}, Shape: "dangling-symlink"},
+		// size classes: documents of 1.5 MiB and 9 MiB, first store and over a small entry
+		{Name: "first-store-of-1.5MiB", Last: op{Kind: "store", Doc: "big-1.5MiB", ID: "a"}, Thin: true},
+		{Name: "first-store-of-9MiB", Last: op{Kind: "store", Doc: "big-9MiB", ID: "a"}, Thin: true},
+		{Name: "overwrite-by-9MiB", Pre: []op{{Kind: "store", Doc: "d1", ID: "a"}}, Last: op{Kind: "store", Doc: "big-9MiB", ID: "a"}, Thin: true},
 	}
 	// the same histories in the environment where the temporary directory is on another file system
 	n := len(hs)
@@ -187,13 +207,20 @@ func RunC20(c *engine.Ctx) {
 				points += s.Bytes
 			}
 		}
-		c.Bound(h.Name, fmt.Sprintf("steps of the crashing store: [%s]; %d crash states (every step boundary + every byte prefix of every write) + the completed store", stepsString(log), points))
+		if h.Thin {
+			c.Bound(h.Name, fmt.Sprintf("steps of the crashing store: [%s]; every step boundary + the byte prefixes 0..256, around every power of two and the last three of every write + the completed store", stepsString(log)))
+		} else {
+			c.Bound(h.Name, fmt.Sprintf("steps of the crashing store: [%s]; %d crash states (every step boundary + every byte prefix of every write) + the completed store", stepsString(log), points))
+		}
 		for k, s := range log {
 			maxP := 0
 			if s.Kind == "write" {
 				maxP = s.Bytes
 			}
 			for p := 0; p <= maxP; p++ {
+				if h.Thin && !prefixTested(p, maxP) {
+					continue
+				}
 				k, p, s := k, p, s
 				c.Case(func() any {
 					return map[string]any{"history": h.Name, "crash-before-step": k, "step": s.Kind, "bytes-of-write-performed": p}
@@ -204,7 +231,7 @@ func RunC20(c *engine.Ctx) {
 		}
 		// recovery: the directory a crash leaves behind is the start state of the next process, which stores again
 		// (a shorter, a longer, an equally long document under the same identifier; another identifier)
-		if !h.CrossDevice {
+		if !h.CrossDevice && !h.Thin {
 			c.Group(h.Name + "+recovery")
 			posts := recoveryOps(h)
 			c.Bound(h.Name+"+recovery", fmt.Sprintf("the same %d crash states, each followed in a new process by one of %d stores %v and a retrieve", points, len(posts), posts))
@@ -230,7 +257,7 @@ func RunC20(c *engine.Ctx) {
 		// clean-up); the process can die anywhere on that path too. For every step of the fault-free store and every
 		// error of the menu the continuation is recorded; where it still touches the file system after the failed step,
 		// every crash point of the continuation is enumerated.
-		if !h.CrossDevice && h.Shape == "" {
+		if !h.CrossDevice && h.Shape == "" && !h.Thin {
 			faultCrash(c, h, log)
 			c.Group(h.Name)
 		}
